@@ -183,3 +183,42 @@ fn c06_actor_put_behind_an_identical_waiting_put_still_starts_its_lookup() {
     kani::cover!(!cached, "an identical put while the first one is still waiting for its lookup");
     kani::cover!(cached);
 }
+
+// =============================================================================================
+// C06: start_put_queries — a put parked behind a lookup is either started or failed AT ONCE when
+// that lookup finishes; it is never left parked behind nothing
+// =============================================================================================
+#[kani::proof]
+#[kani::unwind(22)]
+#[kani::stub(std::time::Instant::now, clock::mock_now)]
+#[kani::stub(std::time::Instant::elapsed, clock::mock_elapsed)]
+#[kani::stub(getrandom::fill, fill_const)]
+#[kani::stub(PutQuery::start, stub_start)]
+#[kani::stub(Actor::get, stub_get)]
+fn c06_a_parked_put_is_started_or_failed_when_its_lookup_finishes() {
+    let mut a = actor(true);
+    let target = crate::core::verif_kani::id1(0x10);
+    // the lookup that just finished for this target may be of any kind (a find_node for the same
+    // target as well as the get lookup the put itself started) and is still registered, as in tick()
+    let kind: u8 = kani::any();
+    kani::assume(kind < 4);
+    a.core.iterative_queries.insert(target, crate::core::iterative_query::verif_kani::query(kind, target));
+    a.core.put_queries.insert(target, PutQuery::new(PutRequestSpecific::PutImmutable(crate::common::PutImmutableRequestArguments { target, v: Box::new([1]) }), None));
+    let start_ok: bool = kani::any();
+    unsafe { START_OK = start_ok };
+    let done_gets: Vec<(Id, Box<[Node]>)> = vec![(target, Box::new([]))];
+    let mut done_puts: Vec<(Id, Option<PutError>)> = Vec::with_capacity(2);
+    a.start_put_queries(&done_gets, &mut done_puts);
+    assert!(unsafe { START_CALLS } == 1, "C06: when the lookup a put waits for finishes, the put's store phase is started");
+    assert!(unsafe { GET_CALLS } == 0, "C06: ... and no further lookup is substituted for it (the finished one is still registered, a new one would not start)");
+    if start_ok {
+        assert!(done_puts.is_empty());
+    } else {
+        assert!(done_puts.len() == 1 && done_puts[0].0 == target && done_puts[0].1.is_some(), "C06: a put that cannot be started fails at once with an error for its caller");
+    }
+    kani::cover!(kind == 0 && !start_ok);
+    kani::cover!(kind == 3 && start_ok);
+    core::mem::forget(done_puts);
+    core::mem::forget(done_gets);
+    core::mem::forget(a);
+}
